@@ -229,7 +229,11 @@ pub fn run_tier(paths: &Paths, c: &Corpus, seed: u64, rounds: u64, sources_per_r
                 // same workload code compiles against pdlc's text alone: then the modules the macros generate
                 // do not offer what pdlc's output offers for the same source (fields, methods, types)
                 build_failures.push(format!("round {round}: {}", e.lines().take(6).collect::<Vec<_>>().join(" | ")));
-                if e.contains("does not build") && build_and_run_v(paths, &sim_dir(paths), &gen, &mods, hash_seed, seed, 1, None, &[], "").is_ok() {
+                // (judged only for a compiler diagnostic about the code, seen again on a second attempt: a build
+                // that was killed or hit a transient error says nothing about the modules)
+                let persistent = !error_excerpt(&e).is_empty()
+                    && matches!(build_and_run(paths, &sim_dir(paths), &gen, &mods, hash_seed, seed, 1, None, &[]), Err(ref e2) if error_excerpt(e2) == error_excerpt(&e));
+                if persistent && e.contains("does not build") && build_and_run_v(paths, &sim_dir(paths), &gen, &mods, hash_seed, seed, 1, None, &[], "").is_ok() {
                     let detail = format!("the workload compiles against pdlc's output but not against the modules #[pdl]/#[pdl_inline] generate from the same sources: {}", error_excerpt(&e));
                     let sig = json!({"tier": "D", "invariant": "I6", "entry": Value::Null, "backend": "derive", "detail": detail});
                     if known.matches(&sig).is_none() && out.violations.len() < 10 {
